@@ -161,11 +161,18 @@ fn run_rand(ctx: &Ctx) -> Report {
         }
         let xs = rand_stream(rk, len, &mut rng);
         let inputs: Vec<In> = xs.iter().map(|x| In::S(*x)).collect();
+        // one job in eight runs the documented default configurations (built through Default::default())
+        let defaults = rng.below(8) == 0;
         for kind in KINDS {
             let mut p = Params::new1(kind, n);
             if kind == Kind::Bb {
                 p.k = *rng.pick(&MULTS);
             }
+            if defaults {
+                p = kind.default_params();
+                rep.count("rand.streams_on_default_configuration");
+            }
+            let n = p.p[0];
             let st = run_stream(rep, "C01", "c01", &p, &inputs, usize::MAX, 1, &judge);
             rep.count("rand.streams");
             rep.add("rand.wraps", (st.steps / n) as u64);
